@@ -223,4 +223,37 @@ func TestMakeSeeds(t *testing.T) {
 		s.block()
 		s.write(t, dir, "seed-config-updates.json", "four config-update proposals: one fails the vote, two pass and are applied, one passes but is invalid when finalised")
 	}
+	{
+		// a chain restarted from a state dump: the genesis carries proposals in every open stage, with recorded votes
+		// and escrowed contributions (validators' powers 3000000..3000003, pass percentage 51: three yes pass, two no
+		// and one unknown can still pass, two no and one yes cannot)
+		p := seedParams("genesis-proposals")
+		ini, gl := p.PropInitialFunding, p.PropFundingGoal
+		full := []sim.PreFund{{User: 0, Amount: ini}, {User: 1, Amount: rest.String()}}
+		p.PreProposals = []sim.PreProposal{
+			{IDSeed: "g-passed", Type: "config", Stage: "passed", Proposer: 0, Funds: full, Goal: gl, FundingDL: 0, VotingDL: 3, Votes: []string{"yes", "unknown", "yes", "yes"},
+				Config: "onsOptions.perBlockFees:200000000000000"},
+			{IDSeed: "g-failed", Type: "general", Stage: "failed", Proposer: 0, Funds: full, FundingDL: 0, VotingDL: 2, Votes: []string{"no", "no", "yes", "no"}},
+			{IDSeed: "g-voting", Type: "general", Stage: "voting", Proposer: 2, Funds: []sim.PreFund{{User: 2, Amount: ini}, {User: 3, Amount: rest.String()}}, FundingDL: 0, VotingDL: 4,
+				Votes: []string{"yes", "yes", "unknown", "no"}},
+			{IDSeed: "g-voting-ended", Type: "code", Stage: "voting", Proposer: 2, Funds: []sim.PreFund{{User: 2, Amount: gl}}, FundingDL: 0, VotingDL: 0, Votes: []string{"yes", "yes", "unknown", "unknown"}},
+			{IDSeed: "g-funding", Type: "general", Stage: "funding", Proposer: 4, Funds: []sim.PreFund{{User: 4, Amount: ini}, {User: 4, Amount: "1"}}, FundingDL: 4, VotingDL: 9},
+			{IDSeed: "g-funding-ended", Type: "general", Stage: "funding", Proposer: 3, Funds: []sim.PreFund{{User: 3, Amount: ini}}, FundingDL: 0, VotingDL: 5},
+			{IDSeed: "g-cancelled", Type: "general", Stage: "cancelled", Proposer: 1, Funds: []sim.PreFund{{User: 1, Amount: ini}, {User: 0, Amount: "5"}}, FundingDL: 3, VotingDL: 8},
+		}
+		s := newSeed(p, "genesis-proposals")
+		id := func(seed string) governance.ProposalID { return sim.PreProposalID(seed) }
+		// h=1: the block hooks finalise the passed and the failed one and expire the one whose voting period is over; a third
+		// yes decides the one in voting; the proposer of the cancelled one takes its contribution back
+		s.block(s.vote(id("g-voting"), 2, yes), s.withdraw(id("g-cancelled"), 1, 1, initial))
+		// h=2: finalisation of g-voting; the funder of the proposal whose funding period ended below the goal withdraws; a
+		// vote on the expired one and a contribution to the cancelled one are refused
+		s.block(s.withdraw(id("g-funding-ended"), 3, 3, initial), s.vote(id("g-voting-ended"), 2, yes), s.fund(id("g-cancelled"), 5, big.NewInt(7)))
+		// h=3: the carried funding proposal reaches its goal (snapshot of the active validators), h=4 votes, h=5 finalised
+		s.block(s.fund(id("g-funding"), 5, new(big.Int).Sub(rest, big.NewInt(1))))
+		s.block(s.vote(id("g-funding"), 0, no), s.vote(id("g-funding"), 1, no), s.vote(id("g-funding"), 3, no), s.withdraw(id("g-cancelled"), 0, 0, big.NewInt(5)))
+		s.block(s.withdraw(id("g-failed"), 1, 1, rest)) // refused: the funds of a failed proposal were distributed
+		s.block()
+		s.write(t, dir, "seed-genesis-proposals.json", "genesis carrying seven proposals (passed config update, failed, voting, voting past its deadline, funding, funding past its deadline, cancelled) with recorded votes and escrowed contributions")
+	}
 }
